@@ -765,6 +765,7 @@ func runBubble(t *testing.T, w *World, res *Result, extra Extra, keepLog bool) {
 		}()
 		synctest.Test(t, func(t *testing.T) {
 			w.sched = core.NewSched()
+			w.sched.Burst = w.plan.Burst
 			w.sched.Log.Keep = keepLog
 			if sp := os.Getenv("VERIF_STREAMLOG"); sp != "" {
 				if f, err := os.Create(sp); err == nil {
